@@ -3,14 +3,20 @@ package main
 import (
 	"fmt"
 	"os"
+	"runtime/debug"
+	"runtime/pprof"
 
 	"verifharness/core"
+	"verifharness/props/c02"
 	"verifharness/props/c08"
+	"verifharness/props/c09"
 	"verifharness/props/c13"
 )
 
 var checks = map[string]func(*core.Ctx) int{
+	"C02": c02.Run,
 	"C08": c08.Run,
+	"C09": c09.Run,
 	"C13": c13.Run,
 }
 
@@ -25,6 +31,15 @@ func main() {
 		fmt.Fprintf(os.Stderr, "unknown check %q\n", id)
 		os.Exit(2)
 	}
+	debug.SetGCPercent(800) // allocation-heavy sweeps; memory is plentiful
 	ctx := core.NewCtx(id, os.Args[2:])
+	if p := ctx.Args["cpuprofile"]; p != "" {
+		f, _ := os.Create(p)
+		pprof.StartCPUProfile(f)
+		rc := run(ctx)
+		pprof.StopCPUProfile()
+		f.Close()
+		os.Exit(rc)
+	}
 	os.Exit(run(ctx))
 }
